@@ -20,6 +20,9 @@ import (
 // Clients: c0 = the actor under test, c1 = alice (operator, helper),
 // c2 = bob (presenter, bystander/target).
 
+// FixtureAutoSubgroups adds "auto-subgroups": true to group g of the fixture.
+var FixtureAutoSubgroups bool
+
 func FixtureGroups(unrestrictedTokens bool, maxClients int) map[string]string {
 	g := map[string]any{
 		"allow-recording":     true,
@@ -39,6 +42,9 @@ func FixtureGroups(unrestrictedTokens bool, maxClients int) map[string]string {
 	}
 	if maxClients > 0 {
 		g["max-clients"] = maxClients
+	}
+	if FixtureAutoSubgroups {
+		g["auto-subgroups"] = true
 	}
 	gj, _ := json.Marshal(g)
 	h := `{"users":{"alice":{"password":"pa","permissions":"op"},"oper":{"password":"p","permissions":"op"},"speaker":{"password":"p","permissions":"present"}}}`
